@@ -24,6 +24,7 @@ structure RunSt where
   pcfg : Option RCfg := none
   ps : PState := PState.init 0
   early : Option Int := none   -- dispatcher family: status of the gateway-made early answer
+  dkind : String := "fixed"    -- early-answering remedy: fixed | strategy | concurrency
 
 def parseRanges (s : String) : Option (List (Int × Int)) :=
   if s == "-" then some [] else
@@ -174,6 +175,18 @@ def fmtPOut : POut → String
   | .noop => "noop"
   | .retry a => s!"retry after={a}"
 
+/-- which remedy answers early (default fixed response) -/
+def parseKind (ws : List String) : Option String :=
+  match kv ws "kind" with
+  | none => some "fixed"
+  | some k => if k == "fixed" || k == "strategy" || k == "concurrency" then some k else none
+
+/-- endpoint letter: `r` carries a retry remedy, `n` does not (default `r`) -/
+def parseEp (ws : List String) : Option String :=
+  match kv ws "ep" with
+  | none => some "r"
+  | some e => if e == "r" || e == "n" then some e else none
+
 def parseEarly (ws : List String) : Option Int :=
   match kvInt ws "early" with
   | some e => if e < 100 || e > 599 then none else some e
@@ -191,23 +204,34 @@ def bulkRun (cfg : RCfg) (pre : String) (status : Int) : Nat → Nat → PState 
 def policyStep (s : RunSt) (ws : List String) : RunSt × String :=
   match ws with
   | "dcfg" :: r =>
-    match parseEarly r, s.pcfg, parsePcfg r with
-    | some e, none, some (cfg, t0) => ({ s with pcfg := some cfg, ps := PState.init t0, early := some e }, "ok")
-    | _, _, _ => (s, "bad-op")
+    match parseEarly r, parseKind r, s.pcfg, parsePcfg r with
+    | some e, some k, none, some (cfg, t0) =>
+      ({ s with pcfg := some cfg, ps := PState.init t0, early := some e, dkind := k }, "ok")
+    | _, _, _, _ => (s, "bad-op")
   | "dreq" :: r =>
     match s.pcfg, s.early, kv r "id", kv r "seq", kvNat r "early" with
     | some cfg, some st, some idE, some sE, some e =>
-      if e == 0 then (s, "pass")
-      else if e == 1 then
-        let (ps', o) := presp cfg s.ps (pctDec sE) (pctDec idE == pctDec sE) st
-        ({ s with ps := ps' }, s!"early status={st} {fmtPOut o}")
-      else (s, "bad-op")
+      match parseEp r with
+      | none => (s, "bad-op")
+      | some ep =>
+        if e > 1 || (s.dkind != "fixed" && e == 0) then (s, "bad-op")
+        else if e == 0 then (s, "pass")
+        else if ep == "n" then
+          -- no retry remedy on this endpoint: the early answer leaves the gateway as it is
+          (s, s!"early status={st} noop")
+        else
+          let (ps', o) := presp cfg s.ps (pctDec sE) (pctDec idE == pctDec sE) st
+          ({ s with ps := ps' }, s!"early status={st} {fmtPOut o}")
     | _, _, _, _, _ => (s, "bad-op")
   | "dresp" :: r =>
     match s.pcfg, s.early, kv r "id", kv r "seq", kvInt r "status" with
     | some cfg, some _, some idE, some sE, some status =>
-      let (ps', o) := presp cfg s.ps (pctDec sE) (pctDec idE == pctDec sE) status
-      ({ s with ps := ps' }, fmtPOut o)
+      match parseEp r with
+      | none => (s, "bad-op")
+      | some ep =>
+        if ep == "n" then (s, "noop") else
+        let (ps', o) := presp cfg s.ps (pctDec sE) (pctDec idE == pctDec sE) status
+        ({ s with ps := ps' }, fmtPOut o)
     | _, _, _, _, _ => (s, "bad-op")
   | "pbulk" :: r =>
     match s.pcfg, kvNat r "n", kv r "prefix", kvInt r "status" with
@@ -361,6 +385,9 @@ def judgeStep (s : JudgeSt) (op out : String) : JudgeSt :=
         match o, kvInt ows "status" with
         | some o, some got =>
           if got != st then setBad s s!"early-answer-status={got}-configured={st}"
+          else if parseEp r == some "n" then
+            (if o == .noop then s
+             else setBad s s!"retry-asked-on-endpoint-without-retry-remedy seq={pctEnc (pctDec sE)}")
           else { s with pev := ⟨pctDec sE, pctDec idE == pctDec sE, inRange cfg st, o⟩ :: s.pev }
         | _, _ => setBad s ("unparsable-answer:" ++ pctEnc out)
     | _, _, _, _, _ => s
@@ -383,7 +410,11 @@ def judgeStep (s : JudgeSt) (op out : String) : JudgeSt :=
           | ["retry", _] => (kvNat ows "after").map POut.retry
           | _ => none
       match o with
-      | some o => { s with pev := ⟨pctDec sE, pctDec idE == pctDec sE, inRange cfg status, o⟩ :: s.pev }
+      | some o =>
+        if parseEp r == some "n" then
+          (if o == .noop then s
+           else setBad s s!"retry-asked-on-endpoint-without-retry-remedy seq={pctEnc (pctDec sE)}")
+        else { s with pev := ⟨pctDec sE, pctDec idE == pctDec sE, inRange cfg status, o⟩ :: s.pev }
       | none => setBad s ("unparsable-answer:" ++ pctEnc out)
     | _, _, _, _ => s
   | "presp" :: r =>
